@@ -492,7 +492,8 @@ def _alarm(signum, frame):
     raise Hang("no result within %s s" % CALL_LIMIT)
 
 
-CALL_LIMIT = 3.0
+CALL_LIMIT = 1.0
+HANGS_PER_VALUE = 2      # after that many calls ran into the limit, the value's remaining perturbations are skipped
 
 
 def limited(fn, *args):
@@ -795,9 +796,14 @@ def _work(job):
     if pert and d["tag"] != "real" and not (ad.get("own_values_only_for_parse") and d["tag"] != "own"):
         minkeep = 1 if ad["kind"] == "hs" else 0
         kinds = ("trunc",) if d["tag"] == "typed" else ad.get("kinds")
+        hangs = 0
         for kind, info, bb in perturb(enc, d["lay"], minkeep, stride, kinds):
             c, note = run_parse(name, bb)
             out.append((c, {"what": "parse", "kind": kind, "info": info, "j": d["j"], "tag": d["tag"], "note": note}))
+            if note.startswith("Hang"):
+                hangs += 1
+                if hangs >= HANGS_PER_VALUE:
+                    break
     use_stub(True)
     return out
 
@@ -842,6 +848,12 @@ def pair_requests(tier, described):
         if vals:
             reqs.append({"s": name, "cap": 300, "vals": vals, "tag": "pairs"})
     return reqs
+
+
+def _limit_memory():
+    """a parser that loops while allocating must fail in its own process, not take the machine down"""
+    import resource
+    resource.setrlimit(resource.RLIMIT_AS, (4 << 30, 4 << 30))
 
 
 def select_jobs(tier, described):
@@ -913,7 +925,7 @@ def run(tier):
             seen.add(key)
             uniq.append(d)
     jobs = select_jobs(tier, uniq)
-    with Pool(16) as pool:
+    with Pool(16, initializer=_limit_memory) as pool:
         results = pool.map(_work, jobs, chunksize=4)
     cases, metas = [], []
     for res in results:
